@@ -96,7 +96,7 @@ var c15Forms = []string{
 	"let $x = `1` in let $a = `2`, $b = $a in $b", "let $a = 'outer' in [let $x = 'mid' in let $a = 'inner', $b = $a in $b]", "let $x = a in let $p = b, $q = $p, $r = $q in [$x, $r]", "let $x = a in let $y = b in let $p = c, $q = [$p, $y] in $q",
 	"{x: let $a = a in $a, y: let $b = b in $a}", "let $a = 'outer' in {x: let $a = 'inner' in $a, y: let $b = b in [$a, $b]}", "[let $a = a in $a, let $b = b in [$b]]",
 	"let $p = (let $a = a in $a), $q = (let $b = b in [$b, $b]) in [$p, $q]", "{x: let $a = a in [$a], y: let $b = b in {z: $b}, z: let $c = c in $c}", "let $a = a in {x: let $b = b in [$a, $b], y: let $c = c in [$a, $c], z: $a}",
-	"{p: let $a = a, $b = b in [$a, $b], q: let $a = c in $a, r: let $d = d in $d}", "rs[*].{x: let $i = id in $i, y: let $k = k in [$k], z: let $n = n in $n}", "[*].length(merge(`{}`, @))", "rs[*].merge(`{\"tag\":\"t\"}`, @).id", "merge(`{\"kind\":\"default\"}`, o1) | length(@)",
+	"{p: let $a = a, $b = b in [$a, $b], q: let $a = c in $a, r: let $d = d in $d}", "rs[*].{x: let $i = id in $i, y: let $k = k in [$k], z: let $n = n in $n}", "[*].length(merge(`{}`, @))", "rs[*].merge(`{\"tag\":\"t\"}`, @).id", "merge(`{\"kind\":\"default\"}`, o1) | length(@)", "merge(`{\"enabled\": false}`, @) | keys(@) | sort(@)", "merge(`{}`, o1, o2) | length(@)", "merge({a: `1`}, o2) | keys(@) | sort(@)", "rs[*].merge(`{\"z\": 0}`, @) | [*].length(@)", "from_items(`[[\"a\", 1]]`) | merge(@, o1) | length(@)",
 	"{a: a, b: b, a: c}", "{b: a, a: b, b: c}.b", "let $x = a, $y = b, $x = c in [$x, $y]", "let $a = a, $b = b, $c = c, $d = d, $e = e in [$a, $b, $c, $d, $e]",
 	// wide lets (more bindings than a small inline table holds) and, around them, narrow lets that
 	// look up names they do not bind: anything left behind by the wide ones shows here
@@ -193,10 +193,17 @@ func c15Run(c *Ctx, idx int) {
 	var first string
 	var fps = map[string]bool{}
 	reps := c15Reps(c)
+	// a long-lived compiled expression, applied to a different document between the
+	// repetitions: its outcome on (a rebuilt copy of) this document must not depend on that history
+	eLong, lcLong := c.LibCompile(text)
+	other := c15Doc(gen.New(c.Seed, "C15/other", id))
 	for k := 0; k < reps; k++ {
 		data := rebuild(r, doc)
 		var l LibOut
-		if k%2 == 0 {
+		if k%4 == 3 && lcLong.Err == nil && lcLong.Panic == nil {
+			c.LibExprSearch(eLong, text, rebuild(r, other))
+			l = c.LibExprSearch(eLong, text, data)
+		} else if k%2 == 0 {
 			l = c.LibSearch(text, data)
 		} else {
 			e, lc := c.LibCompile(text)
